@@ -129,6 +129,21 @@ func execDec(op string, a []string) string {
 		if err := b2.UnmarshalJSON(j); err != nil || string(b2) != string(b) {
 			return "JSON-ROUNDTRIP-CHANGED"
 		}
+		// destinations that held something before: a longer value, a shorter one, a trimmed buffer with spare capacity
+		for _, prev := range []key.ByteStr{
+			append(append(key.ByteStr{}, b...), 3, 4, 5, 6, 7, 8),
+			{9},
+			make(key.ByteStr, 0, len(b)+8),
+			make(key.ByteStr, len(b)/2, len(b)+1),
+		} {
+			d1, d2 := append(key.ByteStr{}, prev...), append(make(key.ByteStr, 0, cap(prev)), prev...)
+			if err := d1.UnmarshalText(t); err != nil || string(d1) != string(b) {
+				return "TEXT-ROUNDTRIP-CHANGED-REUSED-DESTINATION"
+			}
+			if err := d2.UnmarshalJSON(j); err != nil || string(d2) != string(b) {
+				return "JSON-ROUNDTRIP-CHANGED-REUSED-DESTINATION"
+			}
+		}
 		return "ok " + string(t)
 	case "dec.keyjson":
 		// a key survives the JSON and text forms (hex of its CBOR encoding)
@@ -150,6 +165,19 @@ func execDec(op string, a []string) string {
 		c3, _ := k3.MarshalCBOR()
 		if string(c1) != string(c2) || string(c1) != string(c3) {
 			return "ROUNDTRIP-CHANGED"
+		}
+		// decoding into variables that held another key before
+		k4 := key.Key{1: 4, -1: []byte{1, 2, 3}, -4: []byte{4}, 4: []any{uint64(10)}, 5: []byte{7}}
+		k5 := key.Key{1: 4, -1: []byte{1, 2, 3}, -4: []byte{4}, 4: []any{uint64(10)}, 5: []byte{7}}
+		k6 := key.Key{1: 4, -1: []byte{1, 2, 3}, -4: []byte{4}, 4: []any{uint64(10)}, 5: []byte{7}}
+		if k4.UnmarshalJSON(j) != nil || k5.UnmarshalText(t) != nil || key.UnmarshalCBOR(c1, &k6) != nil {
+			return "REUSED-DESTINATION-DECODE-FAILED"
+		}
+		c4, _ := k4.MarshalCBOR()
+		c5, _ := k5.MarshalCBOR()
+		c6, _ := k6.MarshalCBOR()
+		if string(c1) != string(c4) || string(c1) != string(c5) || string(c1) != string(c6) {
+			return "ROUNDTRIP-CHANGED-REUSED-DESTINATION"
 		}
 		return "ok " + hx(c1)
 	}
@@ -317,6 +345,16 @@ func genDecOps(r *rand.Rand, n int) []string {
 		out = append(out, "dec.bytestr "+optBytes(r))
 		alg := symAlgs[r.Intn(len(symAlgs))]
 		out = append(out, "dec.keyjson "+genSymKey(r, alg, true))
+		// signature and ECDH keys, private and public, through JSON / text / CBOR into fresh and used variables
+		switch r.Intn(3) {
+		case 0:
+			out = append(out, "dec.keyjson "+genEdKey(r).tokens(r, r.Intn(3), genCommonExtras(r, -8, sigOpsChoices)))
+		case 1:
+			a := sigAlgs[r.Intn(3)]
+			out = append(out, "dec.keyjson "+genEcScalar(r, a).tokens(r, r.Intn(4), genCommonExtras(r, a, sigOpsChoices)))
+		default:
+			out = append(out, "dec.keyjson "+genDhKey(r, 1+r.Intn(4)).tokens(r, r.Intn(3), nil))
+		}
 	}
 	return out
 }
